@@ -128,12 +128,12 @@ def starts_dangerous(tok):
     return tok in ("(", "[", "-")
 
 
-def pr(e, p, f, L, stmt_tail_ok=False):
+def pr(e, p, f, L, stmt_tail_ok=False, no_extra=False):
     """Tokens of e in a context where its first token is read by parse_expr(p) and the token that
     follows has binding power at most f.  stmt_tail_ok: e is a whole expression statement after which
     an else-if chain may be left open."""
     need = head(e) <= p or open_(e) < f
-    if need or L.flip(L.extra_parens):
+    if need or (not no_extra and L.flip(L.extra_parens)):
         return ["("] + pr(e, 0, 0, L) + [")"]
     k = e[0]
     if k == "int":
@@ -164,7 +164,7 @@ def pr(e, p, f, L, stmt_tail_ok=False):
             toks.append("anders")
             if (len(alt) == 1 and alt[0][0] == "expr" and alt[0][1][0] == "if" and stmt_tail_ok and f == 0
                     and (L.rng is None or L.flip(L.chain))):
-                toks += pr(alt[0][1], 0, 0, L, stmt_tail_ok=True)
+                toks += pr(alt[0][1], 0, 0, L, stmt_tail_ok=True, no_extra=True)
             else:
                 toks += pr_block(alt, L)
         return toks
@@ -222,24 +222,33 @@ def ends_with_open_chain(toks_stmt, s):
 
 
 def pr_stmts(b, L):
-    toks = []
     n = len(b)
+    # a statement that may leave an else-if chain open is only printed that way when the next statement,
+    # in its MINIMAL form, does not start with a dangerous token; whether a separator is required is then
+    # decided on the tokens actually printed (a random layout may add leading parentheses)
+    printed = []
     for i, s in enumerate(b):
         nxt = pr_stmt(b[i + 1], Layout(), True)[0] if i + 1 < n else None
-        # an else-if chain may stay open only if nothing dangerous follows and no `;` is written
         tail_ok = nxt is None or not starts_dangerous(nxt)
-        st = pr_stmt(s, L, tail_ok)
-        toks += st
+        printed.append(pr_stmt(s, L, tail_ok))
+    toks = []
+    for i, s in enumerate(b):
+        st = printed[i]
         chain_open = s[0] == "expr" and s[1][0] == "if" and chain_is_open(st)
         if i + 1 < n:
-            required = ends_in_expr(s) and starts_dangerous(pr_stmt_first(b[i + 1], L))
-            if required and chain_open:
-                raise AssertionError("printer: open chain before a required separator")
+            dangerous = starts_dangerous(printed[i + 1][0])
+            if chain_open and dangerous:
+                # the next statement got leading parentheses from the layout: close the chain instead
+                st = pr_stmt(s, Layout(), False)
+                chain_open = False
+            toks += st
+            required = ends_in_expr(s) and dangerous
             if required or not L.flip(L.drop_sep):
-                # the `;` after an open chain is swallowed by the inner statement: harmless
                 toks.append(";")
-        elif L.flip(0.3):
-            toks.append(";")
+        else:
+            toks += st
+            if L.flip(0.3):
+                toks.append(";")
     return toks
 
 
@@ -309,6 +318,8 @@ def render(tokens, rng=None, ws=0.0, comments=0.0):
                 sep += rng.choice(WS)
             if rng.random() < comments:
                 sep += "// " + rng.choice(["", "x", "als stel }", '"', "é"]) + "\n"
+        if prev == "/" and sep.startswith("/"):
+            sep = " " + sep            # a comment directly after `/` would swallow the operator
         out.append(sep)
         out.append(t)
         prev = t
